@@ -43,6 +43,14 @@ SUMMARY = {
  "C09-d": "ExternalAgent.Release skipped while the agent is Running: a SHUTDOWN subscriber busy with an event never gets its SHUTDOWN, is killed at the deadline",
  "C12-d": "runtime event rendered with buffer.WriteTo (drains): a repeated /next returns the same id with an empty body",
  "C18-d": "restore returns at once while init has not completed (extension still initialising) although the runtime is parked in restore/next",
+ "C04-e": "AwaitRuntimeReady of the invoke flow waits on the response gate: the invocation completes before the runtime asked for next",
+ "C11-e": "a cancelled gate whose count is met returns success from AwaitGateCondition",
+ "C13-e": "event validation of register only looks at the last element: an illegal event before a legal one registers a ghost / wrong error type",
+ "C14-e": "request buffer refilled on every render: a second /next of an oversized event delivers it un-cut",
+ "C16-e": "AWS_SESSION_TOKEN stored only if non-empty: with long-term credentials a customer variable of that name reaches runtime and extensions",
+ "C17-e": "bucket refill cached in a package variable updated only when the rate header is present: sticky rate across requests",
+ "C19-e": "events channel buffered (16) with non-blocking send: termination events dropped when many processes exit while nobody reads",
+ "C20-e": "the 'Unknown' user-agent placeholder not counted in the 128-byte budget of the runtime release string",
  "C20-a": "error cause compacted only if the *incoming* document exceeded the limit (re-encoding grows it)",
 }
 
